@@ -34,6 +34,11 @@ import (
 	fflate "github.com/intel/fastgo/compress/flate"
 )
 
+// levelPortable is the pseudo acceleration level of the second binary built with
+// -tags noasmtest: fastgo's portable files (*_other.go) at level 0, which an amd64
+// build never compiles.
+const levelPortable = 10
+
 const (
 	exitOK        = 0
 	exitViolation = 1
@@ -308,7 +313,20 @@ func saveTrace(path string, tr *props.Trace) error {
 
 // reexecAtLevel re-runs this process with the level forced, if needed.
 func reexecAtLevel(level int) (reexeced bool, code int) {
-	if archLevel() == level {
+	if level == levelPortable {
+		if portableBuild {
+			return false, 0
+		}
+		pb := filepath.Join(verifDir(), "bin", "fgsim-portable")
+		if _, err := os.Stat(pb); err != nil {
+			fmt.Fprintln(os.Stderr, "bin/fgsim-portable missing (check.sh builds it)")
+			return true, exitInfra
+		}
+		err := syscall.Exec(pb, append([]string{pb}, os.Args[1:]...), os.Environ())
+		fmt.Fprintln(os.Stderr, "exec failed:", err)
+		return true, exitInfra
+	}
+	if archLevel() == level && !portableBuild {
 		return false, 0
 	}
 	if os.Getenv("FGSIM_REEXEC") != "" {
@@ -388,10 +406,21 @@ func cmdReplay(path string) int {
 
 // digestAtLevel executes the trace in a child at the given level and returns
 // its digest line.
-func digestAtLevel(path string, level int) (string, error) {
+func binAndEnvForLevel(level int) (string, []string) {
 	self, _ := os.Executable()
-	cmd := exec.Command(self, "digest", path)
-	cmd.Env = append(os.Environ(), fmt.Sprintf("FASTGO_VERIF_ARCHLEVEL=%d", level))
+	if level == levelPortable {
+		return filepath.Join(verifDir(), "bin", "fgsim-portable"), os.Environ()
+	}
+	if portableBuild {
+		self = filepath.Join(verifDir(), "bin", "fgsim")
+	}
+	return self, append(os.Environ(), fmt.Sprintf("FASTGO_VERIF_ARCHLEVEL=%d", level))
+}
+
+func digestAtLevel(path string, level int) (string, error) {
+	bin, env := binAndEnvForLevel(level)
+	cmd := exec.Command(bin, "digest", path)
+	cmd.Env = env
 	var buf bytes.Buffer
 	cmd.Stdout = &buf
 	cmd.Stderr = &buf
@@ -407,7 +436,7 @@ func replayLevelDiff(path string, tr *props.Trace) int {
 		}
 	}
 	if len(lv) < 2 {
-		lv = []int{0, 1, 3, 4}
+		lv = []int{0, 1, 3, 4, levelPortable}
 	}
 	res := map[string][]int{}
 	for _, l := range lv {
@@ -649,7 +678,10 @@ func cmdCheck(id, tier string) int {
 		}
 		levels = keep
 	}
-	fmt.Printf("runnable levels %v (CPUID detected %d)\n", levels, detected)
+	if _, err := os.Stat(filepath.Join(filepath.Dir(self), "fgsim-portable")); err == nil && os.Getenv("VERIF_NO_PORTABLE") == "" && (os.Getenv("VERIF_LEVELS") == "" || strings.Contains(","+os.Getenv("VERIF_LEVELS")+",", ",10,")) {
+		levels = append(levels, levelPortable)
+	}
+	fmt.Printf("runnable levels %v (CPUID detected %d; %d = portable build, -tags noasmtest)\n", levels, detected, levelPortable)
 	runs := p.Runs(tier)
 	ncpu := runtime.NumCPU()
 	if s := os.Getenv("VERIF_WORKERS"); s != "" {
@@ -897,8 +929,14 @@ func runShard(self string, p props.Property, tier string, seed uint64, level, sh
 	runs := p.Runs(tier)
 	restarts := 0
 	for start < runs {
-		cmd := exec.Command(self, "worker", p.ID(), tier, strconv.FormatUint(seed, 10), strconv.Itoa(shard), strconv.Itoa(nshards), strconv.Itoa(start))
-		cmd.Env = append(os.Environ(), fmt.Sprintf("FASTGO_VERIF_ARCHLEVEL=%d", level))
+		bin := self
+		env := append(os.Environ(), fmt.Sprintf("FASTGO_VERIF_ARCHLEVEL=%d", level))
+		if level == levelPortable {
+			bin = filepath.Join(filepath.Dir(self), "fgsim-portable")
+			env = os.Environ()
+		}
+		cmd := exec.Command(bin, "worker", p.ID(), tier, strconv.FormatUint(seed, 10), strconv.Itoa(shard), strconv.Itoa(nshards), strconv.Itoa(start))
+		cmd.Env = env
 		stdout, _ := cmd.StdoutPipe()
 		var stderr bytes.Buffer
 		cmd.Stderr = &stderr
@@ -1397,8 +1435,9 @@ func explainLevelDiff(self, vd string, tr *props.Trace, levels []int) map[string
 	tmp.Close()
 	per := map[int][]props.SubResult{}
 	for _, l := range levels {
-		cmd := exec.Command(self, "digest", tmp.Name())
-		cmd.Env = append(os.Environ(), fmt.Sprintf("FASTGO_VERIF_ARCHLEVEL=%d", l), "FGSIM_EXPLAIN=1")
+		bin, env := binAndEnvForLevel(l)
+		cmd := exec.Command(bin, "digest", tmp.Name())
+		cmd.Env = append(env, "FGSIM_EXPLAIN=1")
 		var buf bytes.Buffer
 		cmd.Stdout = &buf
 		if err := runWithTimeout(cmd, 10*time.Minute); err != nil {
